@@ -1,20 +1,23 @@
 # Builds the Coq development (full .vo build) and the extracted model drivers.
 COQDIR := coq
 EXDIR  := coq/extract
-DRIVERS := sections smartlist wikiedit matches builder nodeops template
+DRIVERS := sections smartlist wikiedit matches builder nodeops template cbuffers
 BINS := $(DRIVERS:%=$(EXDIR)/%_run)
 
 .PHONY: all coq drivers clean
-all: coq drivers
+# the drivers are built even when a proof file no longer compiles (-k): the models live in their own files, and
+# the search for a failing input needs the model regenerated from the CURRENT sources
+all:
+	@rc=0; $(MAKE) coq || rc=1; $(MAKE) -k drivers || rc=1; exit $$rc
 
 coq:
 	/venv/bin/python tools/gen_tables.py
-	cd $(COQDIR) && coq_makefile -f _CoqProject -o Makefile.coq > /dev/null && timeout 3000 $(MAKE) -f Makefile.coq -j8
+	cd $(COQDIR) && coq_makefile -f _CoqProject -o Makefile.coq > /dev/null && timeout 3000 $(MAKE) -k -f Makefile.coq -j8
 
 drivers: $(BINS)
 
 # Extract*.v -> *_model.ml ; then model + conv + driver concatenated into one compilation unit
-$(EXDIR)/%_run: $(EXDIR)/Extract%.v $(EXDIR)/conv.ml $(EXDIR)/%_driver.ml $(wildcard $(COQDIR)/*.v) | coq
+$(EXDIR)/%_run: $(EXDIR)/Extract%.v $(EXDIR)/conv.ml $(EXDIR)/%_driver.ml $(wildcard $(COQDIR)/*.v) $(wildcard $(COQDIR)/gen/*.v)
 	cd $(EXDIR) && timeout 600 coqc -Q .. MW Extract$*.v > /dev/null
 	cd $(EXDIR) && cat $*_model.ml conv.ml $*_driver.ml > $*_all.ml && timeout 600 ocamlfind ocamlopt -w -a $*_all.ml -o $*_run
 
